@@ -1,5 +1,7 @@
 import Driver.Util
 import NutsModel.C04.Token
+import NutsModel.C04.Limiter
+import NutsModel.C04.Uuid
 import NutsModel.Facts.C04
 open Lean Nuts.Drv Nuts.C04 Nuts
 
@@ -25,6 +27,7 @@ structure EngCfg where
   auth : Bool
   rs : String
   aud : String
+  lim : Bool := true     -- the internal rate limiter is installed (core.ServerConfig: strict mode / flag, did:nuts enabled)
 
 structure St where
   regs : List (String × List Registered) := []
@@ -32,13 +35,27 @@ structure St where
   keys : List AuthKey := []
   aud : String := ""
   now : Int := 0
+  buckets : List (String × Nat) := []    -- tokens left in each engine's (engine-wide) rate limiter bucket
 
 def optInt (j : Json) (k : String) : Option Int := (j.getObjValAs? Int k).toOption
 def optStr (j : Json) (k : String) : Option String := (j.getObjValAs? String k).toOption
 def optBool (j : Json) (k : String) : Option Bool := (j.getObjValAs? Bool k).toOption
 
+/-- the jti verdict: computed by the MODEL's `uuidParse` from the claim's bytes when the harness gives them (`jtis`, hex);
+    the library's own verdict (`jti`) otherwise -/
+def jtiVerdict (j : Json) : Option Bool :=
+  match optStr j "jtis", optBool j "jti" with
+  | some h, some _ => some (uuidParse (unhexStr h))
+  | _, v => v
+
+/-- the harness's library verdict disagrees with the model's grammar on this jti -/
+def jtiGrammarMismatch (j : Json) : Bool :=
+  match optStr j "jtis", optBool j "jti" with
+  | some h, some v => uuidParse (unhexStr h) != v
+  | _, _ => false
+
 def parseClaims (j : Json) : Claims :=
-  { jti := optBool j "jti", iat := optInt j "iat", nbf := optInt j "nbf", exp := optInt j "exp",
+  { jti := jtiVerdict j, iat := optInt j "iat", nbf := optInt j "nbf", exp := optInt j "exp",
     aud := match j.getObjVal? "aud" with
       | .ok (.arr a) => some (a.toList.filterMap (fun x => x.getStr?.toOption))
       | _ => none
@@ -56,22 +73,40 @@ def showResp (r : Response) : String :=
   s!"{r.status} ran={ran} {user}"
 
 /-- the model's answer to ONE request on an engine's listener -/
-def respOf (st : St) (eng : String) (j : Json) : String :=
+def bucketOf (st : St) (eng : String) : Nat :=
+  match st.buckets.find? (·.1 == eng) with | some (_, b) => b | none => Facts.C04.limiterBurst
+
+def setBucket (st : St) (eng : String) (b : Nat) : St :=
+  { st with buckets := (eng, b) :: st.buckets.filter (fun x => x.1 != eng) }
+
+def respOfL (st : St) (eng : String) (j : Json) : String × Nat :=
+  let b := bucketOf st eng
   match st.engines.find? (·.1 == eng) with
-  | none => "bad-engine"
+  | none => ("bad-engine", b)
   | some (_, e) =>
     match configureBinds Facts.C04.internalBinds e.pub e.int with
-    | none => "bind-error"
+    | none => ("bind-error", b)
     | some binds =>
       let addr := if jStr j "lis" == "pub" then e.pub else e.int
       let regs := match st.regs.find? (·.1 == e.rs) with | some (_, l) => l | none => []
-      let rs := routesAt binds regs addr
+      let regsHere := regs.filter (fun g => addrOf binds g.path = some addr)
       let authMap := match j.getObjVal? "authok" with
         | .ok (.obj kv) => kv.toList.map (fun (kv : String × Json) => (unhexStr kv.1, kv.2.getBool?.toOption.getD false))
         | _ => ([] : List (Str × Bool))
       let authOK := fun (a : Str) => match authMap.find? (·.1 = a) with | some (_, v) => v | none => false
       let tok := tokenDecision Facts.C04.policy e.aud st.keys st.now (bytesOf (jStr j "hdr")) (parseAnalysis (jObj j "tok"))
-      showResp (serveConn authOK Facts.C04.authSelector Facts.C04.authPath e.auth rs tok (jStr j "m") (unhexStr (jStr j "t")))
+      let out := serveConnL authOK Facts.C04.authSelector Facts.C04.authPath e.auth { on := e.lim, tbl := Facts.C04.limiterTable }
+        regsHere tok (jStr j "m") (unhexStr (jStr j "t")) b
+      (showResp out.1, out.2)
+
+/-- the in-process limiter leg: the wiring decision, then the skipper + bucket on a sequence of (method, c.Path()) calls -/
+def limLeg (j : Json) : String :=
+  if !limiterEnabled Facts.C04.didnutsMethodName (jBool j "strict") (jBool j "flag") (jStrs j "dm") then "off"
+  else
+    let step := fun (acc : Nat × List String) (c : Json) =>
+      if limiterSkips Facts.C04.limiterTable (jStr c "m") (unhexStr (jStr c "p")) then (acc.1, "ok" :: acc.2)
+      else if (allow acc.1).1 then ((allow acc.1).2, "ok" :: acc.2) else ((allow acc.1).2, "429" :: acc.2)
+    String.intercalate "," ((jArr j "calls").foldl step (Facts.C04.limiterBurst, [])).2.reverse
 
 def step (st : St) (j : Json) : St × List String :=
   match jStr j "op" with
@@ -83,13 +118,20 @@ def step (st : St) (j : Json) : St × List String :=
       | .ok (.obj kv) => kv.toList.map (fun (kv : String × Json) => (kv.1, mkRegs (match kv.2 with | .arr a => a.toList | _ => [])))
       | _ => ([] : List (String × List Registered))
     let engs := match j.getObjVal? "engines" with
-      | .ok (.obj kv) => kv.toList.map (fun (kv : String × Json) => (kv.1, ({ int := jStr kv.2 "int", pub := jStr kv.2 "pub", auth := jBool kv.2 "auth", rs := jStr kv.2 "rs", aud := jStr kv.2 "aud" } : EngCfg)))
+      | .ok (.obj kv) => kv.toList.map (fun (kv : String × Json) => (kv.1, ({ int := jStr kv.2 "int", pub := jStr kv.2 "pub", auth := jBool kv.2 "auth", rs := jStr kv.2 "rs", aud := jStr kv.2 "aud", lim := (optBool kv.2 "lim").getD true } : EngCfg)))
       | _ => ([] : List (String × EngCfg))
     ({ regs := regs, engines := engs, keys := (jStrs j "keys").map (fun c => { comment := c }), aud := jStr j "aud", now := jInt j "now" }, ["cfg"])
-  | "req" => (st, [respOf st (jStr j "eng") j])
+  | "req" =>
+    let (s, b) := respOfL st (jStr j "eng") j
+    (setBucket st (jStr j "eng") b, [s])
+  | "skipped" => (st, ["skipped"])
+  | "lim" => (st, [limLeg j])
   | "overlap" =>
     -- two requests in flight at the same time on one engine (the first with a slow body): each is answered as if it were alone
-    (st, ["A:" ++ respOf st (jStr j "eng") (jObj j "ra") ++ " | B:" ++ respOf st (jStr j "eng") (jObj j "rb")])
+    let (sa, b1) := respOfL st (jStr j "eng") (jObj j "ra")
+    let st1 := setBucket st (jStr j "eng") b1
+    let (sb, b2) := respOfL st1 (jStr j "eng") (jObj j "rb")
+    (setBucket st1 (jStr j "eng") b2, ["A:" ++ sa ++ " | B:" ++ sb])
   | "tok" =>
     -- bearer-token decision differential (tokenV2 in-package harness). Long headers are summarised by the harness.
     let hdrS := jStr j "hdr"
@@ -99,9 +141,11 @@ def step (st : St) (j : Json) : St × List String :=
       else if nf == 2 then bytesOf (jStr j "scheme") ++ [' '] ++ List.replicate (jNat j "credlen") 'x'
       else (List.replicate nf ['f', ' ']).flatten
     let keys := (jStrs j "keys").map (fun c => ({ comment := c } : AuthKey))
+    if jtiGrammarMismatch (jObj (jObj j "tok") "claims") then (st, ["uuid-grammar-mismatch"]) else
     match tokenDecision Facts.C04.policy (jStr j "aud") keys (jInt j "now") hdr (parseAnalysis (jObj j "tok")) with
     | .granted u => (st, ["granted user:" ++ u])
     | .denied => (st, ["denied"])
+  | "uuid" => (st, [toString (uuidParse (unhexStr (jStr j "s")))])
   | "configure" =>
     -- keys file states: ok / empty parse fine (an empty file gives zero keys), missing / garbage make New(FromFile) fail
     let fileOK := jStr j "b" == "ok" || jStr j "b" == "empty"
